@@ -252,6 +252,52 @@ def h_driver(ctx, pname, rec, driver, intx=False):
         ctx.fact(False, '%s raised %s: %s' % (driver, type(e).__name__, last[-1][:200] if last else ''))
 
 
+def h_complex_arguments(ctx):
+    """the drivers at complex points and with complex vectors v, w (the recorded polynomial program
+    has the same closed-form derivatives over C): nothing is truncated to its real part.  Concrete
+    numbers: decided on the float build."""
+    algopy = symx.load_algopy()
+    if ctx.mode == 'sym':
+        ctx.fact(True, 'complex arguments: decided on the float build')
+        ctx.eq(S.const(0), S.const(0), 'drivers with complex arguments')
+        return
+    f = lambda x: algopy.zeros(2, dtype=x) + x[0] * x[0] * x[1] + x[1] * x[1] * x[1] + 2. * x[0]
+    F = lambda x: (lambda y: (y.__setitem__(0, x[0] * x[0] * x[1] + 2. * x[0]), y.__setitem__(1, x[1] * x[1] * x[1] * x[0]), y)[2])(algopy.zeros(2, dtype=x))
+    J = lambda a, b: np.array([[2 * a * b + 2., a * a], [b ** 3, 3 * a * b * b]])
+    H0 = lambda a, b: np.array([[2 * b, 2 * a], [2 * a, 0.]])
+    H1 = lambda a, b: np.array([[0., 3 * b * b], [3 * b * b, 6 * a * b]])
+    cg = algopy.CGraph()
+    fx = algopy.Function(np.array([0.5, 1.5]))
+    fy = F(fx)
+    cg.trace_off()
+    cg.independentFunctionList = [fx]
+    cg.dependentFunctionList = [fy]
+    cgs = algopy.CGraph()
+    gx = algopy.Function(np.array([0.5, 1.5]))
+    gy = gx[0] * gx[0] * gx[1] + gx[1] * gx[1] * gx[1] + 2. * gx[0]
+    cgs.trace_off()
+    cgs.independentFunctionList = [gx]
+    cgs.dependentFunctionList = [gy]
+    gs = lambda a, b: np.array([2 * a * b + 2., a * a + 3 * b * b])
+    Hs = lambda a, b: np.array([[2 * b, 2 * a], [2 * a, 6 * b]])
+    zc, xr = np.array([1 + 2j, 3 - 1j]), np.array([1.5, -2.0])
+    vc, vr = np.array([0.5 - 1j, 2 + 0.25j]), np.array([0.5, -2.0])
+    wc, wr = np.array([1 - 1j, 0.5j]), np.array([2.0, -1.0])
+    for label, x, v, w in (('complex point', zc, vr, wr), ('complex v', xr, vc, wr), ('complex w', xr, vr, wc), ('all complex', zc, vc, wc)):
+        a, b = complex(x[0]), complex(x[1])
+        same = lambda got, ref, what: ctx.eq(np.asarray(got, dtype=complex), np.asarray(ref, dtype=complex), '%s: %s' % (label, what))
+        try:
+            same(cg.jacobian(x), J(a, b), 'jacobian')
+            same(cg.jac_vec(x, v), J(a, b).dot(v), 'jac_vec')
+            same(cg.vec_jac(w, x), w.dot(J(a, b)), 'vec_jac')
+            same(cg.vec_hess_vec(w, x, v), (w[0] * H0(a, b) + w[1] * H1(a, b)).dot(v), 'vec_hess_vec')
+            same(cgs.gradient(x), gs(a, b), 'gradient')
+            same(cgs.hessian(x), Hs(a, b), 'hessian')
+            same(cgs.hess_vec(x, v), Hs(a, b).dot(v), 'hess_vec')
+        except Exception as e:
+            ctx.fact(False, '%s raised %s: %s' % (label, type(e).__name__, str(e).strip().splitlines()[-1][:100] if str(e).strip() else ''))
+
+
 def h_input_kept(ctx, driver):
     """a program that writes into its independent variable (x[0] = x[0]*x[1]; ...): every driver
     leaves the caller's array as it was and returns the same result when called again with it"""
@@ -330,6 +376,8 @@ def units(tier, seed):
                             {'pname': prog.name, 'rec': recs[k % 3], 'driver': drv}, dict(opts)))
         k += 1
     for drv in ('gradient', 'jacobian', 'hessian', 'vec_jac'):
+        if drv == 'gradient':
+            out.append(Unit('C04/drivers with complex points and complex vectors (float-decided)', 'symx.props.c04', 'h_complex_arguments', {}, dict(opts)))
         out.append(Unit('C04/program writing into its independent variable/%s called twice with one array' % drv, 'symx.props.c04', 'h_input_kept', {'driver': drv}, dict(opts)))
     nrand = 6 if tier == 'quick' else 150
     for i in range(nrand):
